@@ -34,3 +34,17 @@ def seq_suites(plans, corr, oracle):
             (o_fail if kind.startswith("ORACLE") else c_fail).append((kind + " " + t, lines))
         return o_fail, c_fail
     return run
+
+
+def chain(*extras):
+    """Compose `extra` callables of seqprop.run: each is ctx -> (oracle_fail, corr_fail); results are concatenated."""
+    def run(ctx):
+        o_fail, c_fail = [], []
+        for f in extras:
+            if f is None:
+                continue
+            o, c = f(ctx)
+            o_fail += o
+            c_fail += c
+        return o_fail, c_fail
+    return run
